@@ -595,8 +595,8 @@ def extract(unit, repo, verus_dir):
                 # so that hand-written call sites `T::parse(i)` stay verbatim
                 if selector or lt:
                     raise AnchorLost("with_parse supports plain (selector-free, lifetime-free) types only: " + T)
-                new += ("\n\nimpl %s {\n    pub fn parse<'a>(orig_i: &'a [u8]) -> (r: IResult<&'a [u8], %s>)\n    %s\n    {\n        parse_be_%s(orig_i)\n    }\n}"
-                        % (T, T, it["contract"].strip(), T))
+                new += ("\n\nimpl %s {\n    pub fn parse<'a>(orig_i: &'a [u8]) -> (r: IResult<&'a [u8], %s>)\n    %s\n    {\n        %sparse_be_%s(orig_i)\n    }\n}"
+                        % (T, T, it["contract"].strip(), "proof { assert(false); } " if CANARY else "", T))
                 log.append("R13 generated `%s::parse` (delegation to parse_be) kept as an inherent method" % T)
                 functions.append((T + "::parse", it["file"], True, False))
         elif kind == "newtype_enum":
